@@ -18,10 +18,10 @@ CTX = None
 ROOT = os.path.dirname(os.path.dirname(os.path.dirname(os.path.abspath(__file__))))
 
 
-def run_child(sessions, hashseed, preroll, junk, reverse):
+def run_child(sessions, hashseed, preroll, junk, reverse, boundary=None):
     env = dict(os.environ, PYTHONHASHSEED=str(hashseed))
     env["PYTHONPATH"] = ROOT + (os.pathsep + env["PYTHONPATH"] if env.get("PYTHONPATH") else "")
-    req = {"sessions": sessions, "preroll": preroll, "junk": junk, "reverse": reverse}
+    req = {"sessions": sessions, "preroll": preroll, "junk": junk, "reverse": reverse, "boundary": boundary}
     p = subprocess.run([sys.executable, "-m", "exoverif.c18_child"], input=json.dumps(req), capture_output=True, text=True, env=env, cwd=ROOT, timeout=600)
     if p.returncode != 0:
         raise RuntimeError("C18 child failed: " + p.stderr[-1500:])
@@ -35,18 +35,31 @@ def check_case(case):
     v = case["variants"]
     base = run_child(sessions, 0, 0, 0, False)
     variants = [
-        ("PYTHONHASHSEED=1", run_child(sessions, 1, 0, 0, False)),
-        (f"PYTHONHASHSEED={v['seed']}, preroll={v['preroll']} Syms, {v['junk']} unrelated procs first", run_child(sessions, v["seed"], v["preroll"], v["junk"], False)),
-        (f"PYTHONHASHSEED={v['seed'] + 7}, sessions processed in reverse order", run_child(sessions, v["seed"] + 7, 3, 1, True)),
+        (f"PYTHONHASHSEED=1, preroll={v['preroll']} Syms, {v['junk']} unrelated procs first", run_child(sessions, 1, v["preroll"], v["junk"], False)),
+        (
+            f"PYTHONHASHSEED={v['seed']}, sessions processed in reverse order, each run 3x: as is, and with the symbol counter advanced so that a power of ten falls after 1/3 and 2/3 of the symbols the session creates",
+            run_child(sessions, v["seed"], 3, 1, True, {"d": v["preroll"], "step": 37}),
+        ),
     ]
     nontriv = []
     classes = []
     for sid, b in enumerate(base):
+        if b["id"] == "joint":
+            for name, res in variants:
+                r = res[sid]
+                if b["c"] != r["c"] or b["h"] != r["h"]:
+                    which = "c" if b["c"] != r["c"] else "h"
+                    raise Violation(
+                        {"kind": f"joint-{which}-text-differs"},
+                        f"joint compilation unit of the sessions' final procedures, variant [{name}] vs baseline [PYTHONHASHSEED=0]\n--- baseline .{which}:\n{_first_diff(b[which], r[which])}",
+                    )
+            if b["c"] is not None and not str(b["c"]).startswith("EXC:"):
+                classes.append("joint-unit-compiled")
+            continue
         if b["err"]:
             classes.append("frontend-reject")
             continue
-        for name, res in variants:
-            r = res[sid]
+        for name, r in [(nm, x) for nm, res in variants for x in [res[sid]] + res[sid].get("alt", [])]:
             where = f"session {sid}, variant [{name}] vs baseline [PYTHONHASHSEED=0]\nprogram:\n{render_program(sessions[sid]['prog'])}\nsteps: {sessions[sid]['steps']}"
             if r["err"] != b["err"]:
                 raise Violation({"kind": "frontend-outcome-differs"}, f"{where}: {b['err']} vs {r['err']}")
@@ -73,6 +86,36 @@ def check_case(case):
         "sample": {"session_program": render_program(sessions[0]["prog"]), "steps": sessions[0]["steps"], "variants": [n for n, _ in variants]},
         "_nontriv": nontriv,
     }
+
+
+def _first_diff(a, b):
+    a, b = (a or "").splitlines(), (b or "").splitlines()
+    for i, (x, y) in enumerate(zip(a, b)):
+        if x != y:
+            lo = max(0, i - 3)
+            return "\n".join(a[lo : i + 6]) + "\n--- variant:\n" + "\n".join(b[lo : i + 6])
+    return f"(lengths differ: {len(a)} vs {len(b)} lines)"
+
+
+def directed_cases(ctx, batch=12):
+    """template programs x every distinct call of the name-inventing / set-valued ops, each followed
+    by inline_window + simplify (normalisation sorts terms by Sym), in batches of sessions"""
+    from ..gen.templates import distinct_step_cases
+
+    ops = ["inline", "inline_window", "divide_loop", "cut_loop", "unroll_loop", "unroll_buffer", "stage_mem", "bind_expr", "specialize", "fission", "lift_alloc", "extract_subproc", "remove_loop", "std.auto_stage_mem", "mult_loops", "shift_loop", "expand_dim", "simplify", "reorder_loops", "fuse", "lift_scope", "delete_buffer", "reuse_buffer", "sink_alloc"]
+    tail = [["inline_window", 0, 0, 0], ["inline_window", 0, 0, 0], ["simplify", 0, 0, 0]]
+    buf = []
+    k = 0
+    for c in distinct_step_cases(ctx.shard, ctx.nshards, ops, None, params=(0, 1), grid=(4, 3, 4), cap=10):
+        k += 1
+        if ctx.tier == "quick" and (k + ctx.seed) % 3 and c["steps"][0][0] not in ("inline", "unroll_loop"):
+            continue  # (quick: a third of the sessions; the steps that duplicate binders are always kept)
+        buf.append({"prog": c["prog"], "steps": c["steps"] + tail, "also_callees": True, "rev_procs": bool(k % 2)})
+        if len(buf) == batch:
+            yield {"sessions": buf, "variants": {"seed": 2 + (k * 37 + ctx.seed) % 4000, "preroll": 1 + (k * 53) % 400, "junk": k % 4}}
+            buf = []
+    if buf:
+        yield {"sessions": buf, "variants": {"seed": 2 + (k * 37 + ctx.seed) % 4000, "preroll": 1 + (k * 53) % 400, "junk": k % 4}}
 
 
 def case_strategy(names):
@@ -108,4 +151,7 @@ def run(ctx):
         ctx.evaluations += len(case["sessions"]) - 1
         return info
 
+    from ..common import run_systematic
+
+    run_systematic(ctx, directed_cases(ctx), guarded(ctx, chk), keep_one_in=1, label="directed-template-sessions", presharded=True)
     run_cases(ctx, case_strategy(names), guarded(ctx, chk), ctx.budget(48, 1600))
